@@ -24,11 +24,13 @@ func (node *WifeNode) Individual() *IndividualNode {
 
 	n := node.family.document.NodeByPointer(valueToPointer(node.value))
 
-	if IsNil(n) {
-		return nil
+	// The pointer may lead nowhere, or to something that is not an individual
+	// (such as a family).
+	if individual, ok := n.(*IndividualNode); ok {
+		return individual
 	}
 
-	return n.(*IndividualNode)
+	return nil
 }
 
 func (node *WifeNode) Similarity(other *WifeNode, options SimilarityOptions) float64 {
